@@ -11,6 +11,17 @@ Apply(ll, m, lt) ==
   IF lt[1] = "lss"
   THEN LET f == Pad8(lt[2])  r == Step(ll, f) IN
        [ev |-> <<"rx", 2021, 8>> \o f, l |-> r.l, nmt |-> m, x |-> r.out, reset |-> FALSE]
+  \* the application holds the node in NMT INITIALISATION (CONmtSetMode) / ends it (CONmtBootup): LSS must work there as well -
+  \* it is how an unconfigured node gets its node id
+  ELSE IF lt[1] = "init"
+       THEN [ev |-> <<"nmt_set", 1>>, l |-> ll, nmt |-> 1, reset |-> FALSE, x |-> <<>>]
+  ELSE IF lt[1] = "bootup"
+       THEN [ev |-> <<"nmt_bootup">>, l |-> ll, nmt |-> IF m = 1 THEN 2 ELSE m, reset |-> FALSE,
+             x |-> IF m = 1 THEN << <<"tx", 1792 + (ll.node % 256), 1, 0>> >> ELSE <<>>]
+  ELSE IF lt[1] = "nmt" /\ m = 1
+       THEN [ev |-> <<"rx", 0, 2, lt[2], 0, 0, 0, 0, 0, 0, 0>>, l |-> ll, nmt |-> m, reset |-> FALSE, x |-> << <<"cb", "canrx", 0>> >>]      \* NMT commands are not served in INITIALISATION
+  ELSE IF lt[1] = "sdoid" /\ m = 1
+       THEN [ev |-> <<"rx", 1536 + lt[2], 8, 64, 0, 16, 0, 0, 0, 0, 0>>, l |-> ll, nmt |-> m, reset |-> FALSE, x |-> << <<"cb", "canrx", 1536 + lt[2]>> >>]
   ELSE IF lt[1] = "sdoid"
        \* an SDO read of 1000h:0 addressed to node id lt[2]: served iff that is the ACTIVE node id (every service follows the id that
        \* a reset communication activated); a frame for another id is not the node's
